@@ -248,25 +248,46 @@ impl Stage {
         abs.on_finish = on_finish % 5;
         abs.on_finish_msg = fin_msg;
         abs.obs_text = obs_text;
-        if let Some(tw) = op.n.get(5) {
-            if *tw != 8 {
-                pb = pb.with_tab_width(*tw as usize);
-                abs.tab_width = *tw as usize;
+        // the builder calls are applied in the order selected by n[6] (a permutation of
+        // tab width, message, prefix, style)
+        let mut steps = vec![0usize, 1, 2, 3];
+        let mut code = op.n.get(6).copied().unwrap_or(0) as usize;
+        let mut order = vec![];
+        while !steps.is_empty() {
+            let i = code % steps.len();
+            code /= steps.len().max(1);
+            order.push(steps.remove(i));
+        }
+        let mut style = Some(style);
+        for step in order {
+            match step {
+                0 => {
+                    if let Some(tw) = op.n.get(5) {
+                        if *tw != 8 {
+                            pb = pb.with_tab_width(*tw as usize);
+                            abs.tab_width = *tw as usize;
+                        }
+                    }
+                }
+                1 => {
+                    if let Some(m) = op.s.get(3) {
+                        if !m.is_empty() {
+                            pb = pb.with_message(m.clone());
+                            abs.msg = m.clone();
+                        }
+                    }
+                }
+                2 => {
+                    if let Some(p) = op.s.get(4) {
+                        if !p.is_empty() {
+                            pb = pb.with_prefix(p.clone());
+                            abs.prefix = p.clone();
+                        }
+                    }
+                }
+                _ => pb.set_style(style.take().unwrap()),
             }
         }
-        if let Some(m) = op.s.get(3) {
-            if !m.is_empty() {
-                pb = pb.with_message(m.clone());
-                abs.msg = m.clone();
-            }
-        }
-        if let Some(p) = op.s.get(4) {
-            if !p.is_empty() {
-                pb = pb.with_prefix(p.clone());
-                abs.prefix = p.clone();
-            }
-        }
-        pb.set_style(style);
         self.bars.push(Slot {
             handles: vec![pb],
             abs,
